@@ -574,3 +574,38 @@ func init() {
 	handlers["retkeep"] = retKeepLine
 	handlers["sharedsrc"] = sharedSrcLine
 }
+
+// freshseed <cfg> <seed> <hexexpr> : what a seeded context that has evaluated NOTHING yet reports and does — GetCurSeed at once, then
+// RunExpr as its very first operation, then GetCurSeed again; reference: Run of the same text on another context with the same seed
+func freshSeedLine(t []string) string {
+	if len(t) != 4 {
+		return "bad-op"
+	}
+	cfg, ok := parseCfg(t[1])
+	src, ok2 := unhx(t[3])
+	if !ok || !ok2 {
+		return "bad-op"
+	}
+	a, ok := newVM(cfg, t[2])
+	if !ok {
+		return "bad-op"
+	}
+	return safely(func() string {
+		s0, _ := a.GetCurSeed()
+		v, err := a.RunExpr(src, true)
+		r1 := "err"
+		if err == nil && v != nil {
+			r1 = v.ToRepr()
+		}
+		s1, _ := a.GetCurSeed()
+		b, _ := newVM(cfg, t[2])
+		r2 := "err"
+		if err := b.Run(src); err == nil && b.Ret != nil {
+			r2 = b.Ret.ToRepr()
+		}
+		s2, _ := b.GetCurSeed()
+		return fmt.Sprintf("seed0=%x runexpr=%s seed1=%x | run=%s seed2=%x", s0, hx(r1), s1, hx(r2), s2)
+	})
+}
+
+func init() { handlers["freshseed"] = freshSeedLine }
